@@ -39,7 +39,9 @@ REGISTRY = dict(
           "batches the statistics equal the two-pass moments of the concatenated stream merged with the documented prior (weight 1e-4, mean 0, variance 1); for every history of "
           "VecNormalize reset/step/flag toggles the statistics of a normalised channel are the updates with exactly the observation batches returned while training and norm_obs "
           "were set (frozen otherwise, other keys untouched), the return accumulator is the discounted sum since the last episode end/reset, normalise/unnormalise (regenerated "
-          "expressions, sqrt symbolic) are inverse inside the clip range and bounded by it, pickle/sync keep every statistic. Tie: fragment translator + correspondence."),
+          "expressions, sqrt symbolic) are inverse inside the clip range and bounded by it, terminal observations get the same transform, pickle/sync keep every statistic. "
+          "Known finding F17 norm-obs-enabled-after-construction-raises (VecNormalize(norm_obs=False) has no obs_rms; switching norm_obs on later raises AttributeError) is reproduced "
+          "from a fixed corpus input. Tie: fragment translator + correspondence."),
     note=("Trusted: Coq 8.16.1 kernel (vm_compute, no native_compute), translate/py2coq.py + specs/runningmoments.py, harness/c15.py, Python/numpy/gymnasium. "
           "The epsilon prior is part of the statement ('equal the moments' is read as 'equal the moments of the stream merged with the prior of weight 1e-4'). "
           "Not verified: float64/float32 rounding (statistics compared at rel/abs 1e-9, float32 outputs at 1e-5), np.sqrt (hint checked by squaring inside Coq), "
